@@ -395,7 +395,16 @@ def runTrace (fuel : Nat) : St → List Tok → Nat → Nat → Bool → TraceRe
   | s, [], _, n, bad => .ok s n bad
   | s, t :: ts, i, n, bad =>
     let name := t.role ++ ":" ++ t.site
-    if t.site.startsWith "obs.st" then
+    if t.site.startsWith "obs.failed." then
+      -- after a failed Start the harness observed the real object: state, wait-group busy?, run-done channel
+      -- (0 nil, 1 open, 2 closed): the counter ↔ state invariant judged on the implementation
+      match (t.site.drop 11).toString.splitOn "." with
+      | [a, b, c] =>
+        if a == toString (stCode s.st) && b == toString s.wg && ((c == "2") == s.runOver) then
+          runTrace fuel s ts (i + 1) n bad
+        else .obsMismatch i name s
+      | _ => .unknown i name
+    else if t.site.startsWith "obs.st" then
       -- the harness read GetState() at a quiescent moment
       if (t.site.drop 6).toString == toString (stCode s.st) then runTrace fuel s ts (i + 1) n bad
       else .obsMismatch i name s
@@ -498,7 +507,8 @@ def chkC10 (ln : Line) (_toks : List Tok) (calls : List (String × Nat)) (fin : 
     some "C10:hang a Start/Stop call did not return (watchdog)"
   else if bad then
     some "C10:stop-waits-on-next-run a Stop call parked before RunDoneWait waited on a run started after it (wait group reused)"
-  else if ln.kind != "udp" && calls.any (fun c => roleLetter c.1 == "S" && c.2 != 0) then
+  else if ln.kind != "udp" && calls.any (fun c => roleLetter c.1 == "S" && c.2 != 0 &&
+      !(sitesOf c.1 _toks).contains "start.startRunFailed") then
     some "C10:restart-failed a Start call on an inactive source was refused or failed"
   else if calls.any (fun c => roleLetter c.1 == "S" && c.2 == 1) && fin.res != 0 then
     some "C10:failed-start-keeps-resources a failed Start left the sockets / reader goroutines of Sample open; the next Start fails to bind"
@@ -510,9 +520,35 @@ def chkC10 (ln : Line) (_toks : List Tok) (calls : List (String × Nat)) (fin : 
     else none
   else none
 
-/-- judge one executed schedule: trace conformance, outcomes against the model, property oracle -/
+/-- Oracle on the observations taken after failed Start calls (implementation only, no model): the source
+must be Inactive with its completion barrier released — wait-group counter 0, and when the Start had already
+run `RunDoneActivate` (it failed in `StartRun`) the run-done channel closed. -/
+def chkFailedObs : List Tok → Bool → Option String
+  | [], _ => none
+  | t :: ts, afterAct =>
+    if t.site == "start.startRunFailed" then chkFailedObs ts true
+    else if t.site == "start.sampleFailed" || t.site == "start.channelsFailed" || t.site == "start.prepareFailed"
+        || t.site == "state.startRejected" then chkFailedObs ts false
+    else if t.site.startsWith "obs.failed." then
+      match (t.site.drop 11).toString.splitOn "." with
+      | [a, b, c] =>
+        if a != "0" then some s!"C10:failed-start-not-inactive after a failed Start the source state is {a}, not Inactive"
+        else if b != "0" then some "C10:failed-start-leaves-run-open after a failed Start the runDone wait group is still counted up (state Inactive, counter not 0): the Stop of the next run will wait for ever"
+        else if afterAct && c != "2" then some "C10:failed-start-leaves-run-open after a Start that failed in StartRun the run-done channel is not closed (activation not undone)"
+        else chkFailedObs ts afterAct
+      | _ => chkFailedObs ts afterAct
+    else chkFailedObs ts afterAct
+
+/-- judge one executed schedule: property oracle on the implementation's own observations first, then trace
+conformance, outcomes against the model, property oracle with the model's bookkeeping -/
 def judgeRun (ln : Line) (toks0 : List Tok) (calls : List (String × Nat)) (fin : Fin) : Verdict :=
   let toks := normalize toks0.length false toks0
+  match chkFailedObs toks false with
+  | some v => .viol v
+  | none =>
+  if fin.hang != 0 || calls.any (fun c => c.2 == 2) then
+    .viol "C10:hang a Start/Stop call did not return (watchdog)"
+  else
   match runTrace toks.length (init ln.opens) toks 0 0 false with
   | .rejected i tok s => .diff s!"trace-rejected at {i} {tok}: the model has no such step (st {stCode s.st} wg {s.wg} kWait {s.kWait})"
   | .unknown i tok => .diff s!"trace-unknown-token at {i} {tok}"
@@ -544,6 +580,7 @@ def judgeRun (ln : Line) (toks0 : List Tok) (calls : List (String × Nat)) (fin 
             (if countSite toks "rpc.sourceGone" > 0 then ["requestAfterEnd"] else []) ++
             (if countSite toks "rpc.notActive" > 0 then ["requestNotActive"] else []) ++
             (if countSite toks "loop.gotRequest" > 0 then ["request"] else []) ++
+            (if countSite toks "start.startRunFailed" > 0 then ["startRunFailed"] else []) ++
             (if ln.sched == "rnd" || ln.sched == "stopAt" || ln.sched == "reuse" || ln.sched == "timing" then ["gated"] else []) ++
             (if n > 60 then ["long"] else [])
           .ok tags
